@@ -180,6 +180,24 @@ def main():
                 broken.append(("axiom", "theorem %s depends on assumptions outside the standard library's axioms: %s" % (n, ", ".join(foreign))))
             else:
                 discharged += 1
+    # thorough tier: the independent checker re-checks the compiled property file and everything it depends on
+    coqchk_report = None
+    if coq_ok and tier == "thorough":
+        try:
+            rc2, chk = run(["coqchk", "-silent", "-o", "-Q", ".", "ACV", "ACV.Properties.%s" % pid], cwd=COQ, timeout=3000)
+        except subprocess.TimeoutExpired:
+            rc2, chk = 124, "coqchk timed out"
+        open(os.path.join(BUILD, pid + ".coqchk.log"), "w").write(chk)
+        summary = chk[chk.find("CONTEXT SUMMARY"):] if "CONTEXT SUMMARY" in chk else chk[-1500:]
+        coqchk_report = " ".join(summary.split())
+        if rc2 != 0:
+            broken.append(("coqchk", "the independent checker does not accept Properties/%s.vo: %s" % (pid, chk[-1500:])))
+        elif "* Axioms: <none>" not in chk:
+            m = re.search(r"\* Axioms:(.*?)\* Constants", chk, flags=re.S)
+            listed = [a.strip() for a in (m.group(1).split("\n") if m else []) if a.strip()]
+            foreign = [a for a in listed if a.split(".")[-1] not in STDLIB_AXIOMS]
+            if foreign:
+                broken.append(("coqchk", "coqchk lists axioms outside the standard library's: " + ", ".join(foreign)))
     bad = scan_forbidden()
     if bad:
         broken.append(("scan", "forbidden declarations in the development: " + "; ".join(bad[:10])))
@@ -276,6 +294,9 @@ def main():
         "broken": [w + ": " + d[:500] for w, d in broken],
         "notes": notes + ((result or {}).get("notes") or []),
     }
+    if coqchk_report:
+        cov["coqchk"] = coqchk_report
+        tb.append("coqchk -silent -o (independent checker, thorough tier): " + coqchk_report[:400])
     if (result or {}).get("unmodelled"):
         cov["unmodelled"] = result["unmodelled"]
     meta_path = os.path.join(VERIF, "gen", "meta", pid + ".json")
